@@ -50,6 +50,28 @@ pub fn line_tf(out: &mut dyn Write, b: &Board, k: u64, reps: u8) {
     }
 }
 
+/// search with a repetition table in which every CHILD of the root (position after one legal move) already stands `reps` times
+pub fn line_tfc(out: &mut dyn Write, b: &Board, k: u64, reps: u8) {
+    let t = CountingTimeout { k, polls: Cell::new(0) };
+    let r = catch_unwind(AssertUnwindSafe(|| {
+        let mut e = Engine::default();
+        let mut tf = ThreeFold::new();
+        for m in sorted_moves(b) {
+            if let Some(c) = b.move_new(m) {
+                for _ in 0..reps {
+                    tf.add(c);
+                }
+            }
+        }
+        let (mv, sc) = e.search(b, &tf, &t);
+        (mv, sc, e.max_depth)
+    }));
+    match r {
+        Ok((mv, sc, d)) => writeln!(out, "SK\t{}\t{k}\t{reps}\t{}\t{}\t{d}", xfen(b), mv.map(mv_str).unwrap_or("-".into()), enc(sc)).unwrap(),
+        Err(_) => writeln!(out, "SK\t{}\t{k}\t{reps}\tTRAP\t-\t0", xfen(b)).unwrap(),
+    }
+}
+
 pub fn line(out: &mut dyn Write, b: &Board, k: u64) {
     match search_once(b, k) {
         Some((mv, sc, d, polls)) => {
@@ -126,6 +148,12 @@ const MATE_IN_ONE: &[&str] = &[
     // the only mate is a quiet move of a piece that also has a capture
     "6k1/5ppp/8/8/8/8/7K/1b2R3 w - - 0 1",
     "1B2r3/7k/8/8/8/8/5PPP/6K1 b - - 0 1",
+    // the mate in one is an en-passant capture by a pawn pinned on the diagonal it captures along
+    "3q1r1b/3nk3/3p4/4Pp2/2B3N1/8/1K6/4R3 w - f6 0 1",
+    "4r3/1k6/8/2b3n1/4pP2/3P4/3NK3/3Q1R1B b - f3 0 1",
+    // the mate in one is a double pawn step
+    "8/8/6pp/7k/5K2/8/6P1/4B3 w - - 0 1",
+    "4b3/6p1/8/5k2/7K/6PP/8/8 b - - 0 1",
     // stalemate tricks and under-promotion mates
     "5k2/5P2/5K2/8/8/8/8/8 w - - 0 1",
     "7k/5P2/6K1/8/8/8/8/8 w - - 0 1",
@@ -180,8 +208,10 @@ pub fn run(out: &mut dyn Write, rng: &mut Rng, n: usize, k_max: u64) {
             mates1 += 1;
         }
         // every root: the small k exhaustively, then a ladder, then two random values
-        let ks: Vec<u64> = if i < MATE_IN_ONE.len() + CORPUS.len() + clock_roots {
+        let ks: Vec<u64> = if i < MATE_IN_ONE.len() + CORPUS.len() {
             ladder(k_max)
+        } else if i < MATE_IN_ONE.len() + CORPUS.len() + clock_roots {
+            vec![0, 1, 2, l.len() as u64, l.len() as u64 + 1, l.len() as u64 + 2, 60, 200]
         } else {
             let mut v = vec![0, 1, 2, l.len() as u64, l.len() as u64 + 1, l.len() as u64 + 2];
             for _ in 0..4 {
@@ -197,6 +227,14 @@ pub fn run(out: &mut dyn Write, rng: &mut Rng, n: usize, k_max: u64) {
             for reps in [1u8, 2, 3, 4] {
                 for k in [0u64, l.len() as u64 + 2, 60] {
                     line_tf(out, b, k, reps);
+                }
+            }
+        }
+        // every child of the root already stands 1..4 times in the table (unclaimed repetitions: counts above 3 occur in the tree)
+        if i % 7 == 3 {
+            for reps in [1u8, 2, 3, 4] {
+                for k in [l.len() as u64 + 2, 80] {
+                    line_tfc(out, b, k, reps);
                 }
             }
         }
@@ -397,7 +435,11 @@ pub fn mirrors(out: &mut dyn Write, rng: &mut Rng, n: usize, k_max: u64) {
 
 pub fn replay_sh(out: &mut dyn Write, f: &[&str]) {
     if let Ok(b) = f[1].parse::<Board>() {
-        line_tf(out, &b, f[2].parse().unwrap_or(0), f[3].parse().unwrap_or(0));
+        if f[0] == "SK" {
+            line_tfc(out, &b, f[2].parse().unwrap_or(0), f[3].parse().unwrap_or(0));
+        } else {
+            line_tf(out, &b, f[2].parse().unwrap_or(0), f[3].parse().unwrap_or(0));
+        }
     }
 }
 
